@@ -78,7 +78,12 @@ def canon(v) -> str:
 def call(fn, *a, **k) -> str:
     """canonical outcome of calling real code: value / RE / EXC"""
     try:
-        return canon(fn(*a, **k))
+        r = fn(*a, **k)
+        out = canon(r)
+        if isinstance(r, (list, dict, set, tuple)):
+            import adapters
+            adapters.poison(r)
+        return out
     except RuntimeError:
         return "RE"
     except Exception:  # noqa
@@ -218,12 +223,12 @@ def theorem_names(module):
     return names
 
 
-def audit_axioms(modules):
-    """#print axioms on every theorem of the property modules.
+def audit_axioms(modules, suffix=None):
+    """#print axioms on every theorem of the property modules (only those whose name ends in `suffix`, if given).
     -> (n_theorems, n_ok, problems:list[str], names)"""
     names = []
     for m in modules:
-        names += theorem_names(m)
+        names += [n for n in theorem_names(m) if suffix is None or n.endswith(suffix)]
     if not names:
         return 0, 0, ["no theorems found in %s" % modules], []
     src = "".join("import %s\n" % m for m in modules) + "".join("#print axioms %s\n" % n for n in names)
